@@ -61,11 +61,11 @@ PROPS = {
     "C01": {
         "module": "Cuke.Props.C01",
         "namespace": "Cuke.C01",
-        "families": [("pipe.verdict", 5000, 150000), ("sched.run", 1000, 40000)],
+        "families": [("pipe.verdict", 5000, 150000), ("exit.run", 3000, 80000), ("sched.run", 1000, 40000)],
         "segments": {"sched.run": [14]},
         "segment_names": ['c01'],
         "modelled_not_verified": [
-            "process exit status / the panic! in filter_run_and_exit (the Stats getters it reads are compared)",
+            "the process exit status itself: observed is the panic of the real Cucumber::run_and_exit (family exit.run: real builder glue with_cli / repeat_* / fail_on_skipped* / filter_run's event loop around a replaying Runner, panic caught and its message compared with Cuke.exitOutcome)",
             "Libtest's own verdict is covered with C14 once the reporters are modelled",
         ],
     },
